@@ -183,7 +183,7 @@ class PoolWorld(HistoryWorld):
             q.append({'op': 'arena_cell', 'bits': _rbits(rng, nb), 'refs': refs, 'caller': -1})
         if cfg.get('exotic') or self.prop == 'C08':
             for _ in range(rng.randint(1, 3)):
-                q.append({'op': 'arena_exotic', 'kind': rng.choice(['pruned', 'proof', 'update', 'library', 'skeleton-pair', 'skeleton-pair', 'lookalike', 'lookalike-separate']), 'c': rng.randrange(1 << 16),
+                q.append({'op': 'arena_exotic', 'kind': rng.choice(['pruned', 'proof', 'update', 'library', 'skeleton-pair', 'skeleton-pair', 'lookalike', 'lookalike-separate', 'nested3']), 'c': rng.randrange(1 << 16),
                           'd': rng.randrange(1 << 16), 'caller': -1})
 
     def _ref(self, rng):
@@ -346,6 +346,16 @@ class PoolWorld(HistoryWorld):
                     if ok2:
                         self._register(st, st.arena, c2, plain, ctx, 'exotic-lookalike')
                     twin = exroot
+            elif kind == 'nested3':
+                # three Merkle levels: pruned branches of mask 0b100, 0b101, 0b110 (gaps) and 0b111 under one cell
+                if a.mask or b.mask:
+                    return
+                ps = [pruned_of(RCell('1', (pruned_of(a, 2),)), 3), pruned_of(RCell('0', (pruned_of(b, 1),)), 3), pruned_of(a, 3),
+                      pruned_of(RCell('', (pruned_of(pruned_of(b, 1), 2),)), 3)]
+                ps = ps[op['c'] % 4:] + ps[:op['c'] % 4]
+                z = RCell('0110', ps[:(1, 2, 4)[op['d'] % 3]])
+                twin = merkle_proof_of(RCell('10', (merkle_proof_of(RCell('1', (merkle_proof_of(z),))),)))
+                ctx.probe('three-merkle-levels-gapped-pruned-masks')
             elif kind == 'proof':
                 twin = merkle_proof_of(a)
             elif kind == 'update':
@@ -356,6 +366,7 @@ class PoolWorld(HistoryWorld):
             return
         ok, c = call(lib_cell_from_rcell, twin)
         if not ok:
+            ctx.count('carve-out:spec-valid-exotic-cell-refused-by-constructor')   # C02's subject, not a round trip
             return
         ctx.probe('exotic-cells-in-pool')
         self._register(st, st.arena, c, twin, ctx, 'exotic')
